@@ -10,7 +10,9 @@ SPEC = {
              "scheduler (the schedule token order is part of the case and is forced on the two relay goroutines). TCP: all "
              "pairs of short scripts (0-3 chunks, empty reads, EOF/error tails, tail fused with the last chunk) x ALL "
              "interleavings of the two goroutines; refused writes at every index, full close racing the other direction, "
-             "chunks around the 32 KiB copy buffer. ENDPOINT KIND is a dimension of every TCP case: socket with CloseWrite / "
+             "chunks around the 32 KiB copy buffer; PASSIVE peers (end only after the relay signalled the end of the other "
+             "direction) against a side that FAILS (read error alone / fused with data, refused write) x every interleaving "
+             "x endpoint kinds. ENDPOINT KIND is a dimension of every TCP case: socket with CloseWrite / "
              "iocopy.NewReadWriteCloser(conn, conn, closeFn) with reader = writer = one Close-only transport conn (exactly how "
              "mapping/base.go, target_handler.go createTunnelRWC and socks5_tunnel.go build the tunnel side) / separate reader and "
              "Close-only writer objects / writer with neither; all 16 kind pairs x all interleavings of the half-close orders, "
@@ -36,6 +38,7 @@ SPEC = {
     "assumptions": [
         "WF (UDP): datagrams carried by the encoding have 1 <= len <= 65535 (zero-length datagrams are dropped, a 65536-byte read is mis-encoded as length 0: outside WF, replayed)",
         "WF (UDP): not both sides block forever (then the relay rightly never returns)",
+        "WF (TCP): not both peers passive; a passive peer sits behind an object with CloseWrite (for a transport without half-close — the wrapper kinds, as the tunnel side is built in production — a passive peer is released only by the final Close, which waits for both directions: model witness C12_tcp_passive_peer_needs_halfclose_witness, not run against the code)",
         "Writes to the UDP socket and to the tunnel succeed while the relay runs (write-error paths of iocopy.UDP are not modelled); TCP sinks refuse a whole Write (no short writes)",
         "a schedule step is one loop iteration of one goroutine (Read .. next Read), or the begin / the end of a Write that stays in progress; the two directions share no state except through the endpoints",
         "the real 20 ms flush ticker cannot be stopped: a run in which it fired outside the scheduled windows before a scheduled slow write is detected and repeated (stat reruns_unscheduled_tick)",
